@@ -92,6 +92,37 @@ def builders_of(fx, root, adts, depth=2):
     return out
 
 
+def rerooting_rule(fx, ck, name):
+    """capture and restore apply the same re-rooting transformations (shared by C07 and C02)"""
+    ss = fx.one("BytecodeVM::save_state")
+    fs = fx.one("BytecodeVM::from_saved_state")
+    # A value that save_state passes through a function taking a `&Guard` (PendingCompletion::duplicate: the copy
+    # carries no guard of its own, the guard of the saved state roots it) loses its root when the saved state is
+    # consumed; from_saved_state must pass it through the same function again, with the new VM's guard.
+    ck.rule(name, "every re-rooting function (takes a &Guard, other than Guard's own methods) that save_state applies is applied by from_saved_state at least as often", floor=1)
+
+    def rerooting_calls(root, adts):
+        out = {}
+        for g in builders_of(fx, root, adts):
+            for bi, t in g.calls():
+                d = t[1].get("d", "")
+                h = fx.fns.get(d)
+                if h is None or d.startswith("gc::"):
+                    continue
+                if any("gc::Guard<" in fx.tys(h.locals[k]) for k in range(1, h.argc + 1)):
+                    out[d] = out.get(d, 0) + 1
+        return out
+    cap_calls = rerooting_calls(ss, (SV, STF))
+    res_calls = rerooting_calls(fs, (VM, TF))
+    for d, n in sorted(cap_calls.items()):
+        ok = res_calls.get(d, 0) >= n
+        ck.instance(name, "%s: %d on capture, %d on restore" % (d.split("::")[-2] + "::" + d.split("::")[-1], n, res_calls.get(d, 0)), F.short_span(fs.span), ok=ok)
+        if not ok:
+            ck.finding(name, name + "/" + d, F.short_span(fs.span),
+                       "save_state copies values through `%s` (%d sites: the copy is rooted only by the saved state's guard) but from_saved_state applies it %d times: "
+                       "a value moved out of the consumed state as it is has no root in the rebuilt VM and is reclaimed at the next collection" % (d, n, res_calls.get(d, 0)))
+
+
 def run(tier):
     ck = Check("C07", tier, "field-level taint from the running VM's fields into the aggregates built by save_state, and from the saved state into the aggregates built by from_saved_state (closures included)",
                ["host schedules, batching and settlement order", "Promise.race/any/allSettled semantics",
@@ -178,6 +209,7 @@ def run(tier):
     ck.instance("R3.reguard", "from_saved_state calls Guard::guard", F.short_span(fs.span), ok=regs)
     if not regs:
         ck.finding("R3.reguard", "R3.reguard/from_saved_state", F.short_span(fs.span), "from_saved_state no longer guards the restored registers: they are unrooted after a resume")
+    rerooting_rule(fx, ck, "R3b.rerooting-symmetric")
     # ---- R5 whoever looks at a promise's status subscribes to the pending case
     # A function that branches on PromiseStatus and answers from what it sees must, for Pending, register a
     # handler on the promise (mutable access to PromiseState.handlers, directly or through promise_then):
